@@ -11,7 +11,7 @@ import (
 
 var (
 	idxSignature = []byte{255, 't', 'O', 'c'}
-	idxMinLen    = idxHeaderSize + idxFanoutSize + idxCrcSize + len(idxSignature) + 40 // idx and pack hashes
+	idxMinLen    = idxHeaderSize + idxFanoutSize + 40 // header, fanout, pack and idx hashes (an empty sha1 index)
 	idxSupported = uint32(2)
 )
 
@@ -34,6 +34,29 @@ func (s *PackScanner) loadIdxFile(idx billy.File) error {
 	if err := validateFile(mmap, idxSupported, idxSignature, idxMinLen); err != nil {
 		_ = cleanup()
 		return fmt.Errorf("malformed idx file: %w", err)
+	}
+
+	// Structural validation, mirroring canonical Git's load_idx: the
+	// fanout table must be monotonic and the file size must match the
+	// object count (each object: name + crc + 32-bit offset; at most
+	// count-1 64-bit offsets).
+	var prev uint32
+	for i := 0; i < 256; i++ {
+		n := binary.BigEndian.Uint32(mmap[idxHeaderSize+i*4:])
+		if n < prev {
+			_ = cleanup()
+			return fmt.Errorf("malformed idx file: non-monotonic fanout at entry %d", i)
+		}
+		prev = n
+	}
+	minSize := uint64(idxHeaderSize+idxFanoutSize+2*s.hashSize) + uint64(prev)*uint64(s.hashSize+idxCrcSize+off32Size)
+	maxSize := minSize
+	if prev > 0 {
+		maxSize += uint64(prev-1) * off64Size
+	}
+	if size := uint64(len(mmap)); size < minSize || size > maxSize {
+		_ = cleanup()
+		return fmt.Errorf("malformed idx file: size %d is inconsistent with object count %d", size, prev)
 	}
 
 	s.idxCleanup = cleanup
